@@ -739,7 +739,7 @@ class EffectDomain(DefaultDomain):
         return val(("seqiter", n), st.set("ev.iters", n + 1).set(f"it.{n}", ("tuple",) + tuple(yields)))
 
     def force_sequence(self, interp, value, st, fr):
-        if isinstance(value, tuple) and value[:1] in (("genobj",), ("lazycomp",)) and getattr(self, "lazy_generators", False):
+        if isinstance(value, tuple) and value[:1] in (("genobj",), ("lazycomp",), ("iterobj",)) and getattr(self, "lazy_generators", False):
             return self.exhaust(interp, value, st, fr if fr is not None else self._holder_frame())
         if isinstance(value, tuple) and value[:1] == ("seqiter",) and len(value) == 2:
             rest = st.get(f"it.{value[1]}", None)
